@@ -449,6 +449,26 @@ EXTRA3 = {
   technique="; options as configured (MCChainAdmissionCfg: every EKU list up to 3/4 names incl. 'Any' at every position and duplicates, forbidden-extension lists; laws ListShape / order-free / AnyOpens) replayed through ValidateLogConfig, instance set-up and NewCertValidationOpts; key identifiers and decoy look-alike roots (renamed key / re-keyed name) in 4 decoy pools with the code-shaped candidate lookup proved equal to the property; pools materialized in both orders",
   note=" Named clause KeyIdsAgree (hierarchies whose key identifiers agree as RFC 5280 4.2.1.2 prescribes)."),
 }
+EXTRA4 = {
+ "C12": dict(
+  technique="; client construction as part of the specification: 81 key options (key material in every form x either option x interplay) checked against ConstructionLaw, each given to client.New and probed; 48 precertificate chain shapes (signer x poison position x last extension x notAfter form) submitted through add-pre-chain with the expected entry from harness/ref",
+  note=" Named clauses LenientMaterial, OnlyKeyItHas; sequences only under the four standard key options."),
+ "C14": dict(
+  text=" ChainStore.tla now models a process serving several logs (own backend, table and cache each, caches from the repository's constructor with equal options: LogsIndependent, AckedIsStored, AckedServable, CacheStandsForStored), the resubmission after a failed storage.Add, and get-entries pages under four completion orders of the per-leaf work with a leaf garbled by the backend (RangeOrderIrrelevant, GarbledLeafIsError); three named model defects (cacheOnFailedAdd, sharedCache, pageLastWins) are refuted by TLC.  Every cache write is judged against the storage calls of its own request; every stored chain is decoded by an independent DER reader; C01, C06, C07 and C08 run the same replay and page matrix through ctfe_common.external_storage."),
+ "C16": dict(
+  technique="; case analysis ScanClasses.tla over entry kind x defect sets of a layered catalogue (DER / field / fatal; TolerableComposes), replayed with real DER through Scanner.Scan, all logs of the other stages hold every class; a reduced run of the Migrillian conformance part decides the controller's use of the Fetcher (continuous passes, submitter faults)"),
+ "C17": dict(
+  technique="; outcome = the pair (sct, err), sessions (positive-weight members) as the quantifier of a race, weight-operation histories (SubmissionWeights.tla: RefusedChangesNothing, GroupsStayViable) replayed on long-lived groups with submissions; wire reply classes replayed through real log clients (BuildLogClient) behind a real Distributor with independent per-SCT verification",
+  note=" The pair (SCT, error) is not scripted as a Submitter outcome (no Submitter of the repository returns it; named model clause ErrorWins); restricted sessions exhaustive on Duo / Apple (quick) and Chrome N=2 safety (thorough); 560 wire cases."),
+ "C19": dict(
+  technique="; header cover (hash byte x signature-algorithm byte, 70 headers) x form of the signature bytes (genuine SHA-256 bytes, garbage, made by the log key over the unhashed content, crafted from the public key alone for an unhashing ECDSA verifier) x ECDSA log and RSA log (ExactHeaderOnly, OtherHeaderRefused, named clause NoHashNoSignature)"),
+ "C20": dict(
+  text=" The configured range is a scenario dimension: start_index x end_index x one-shot / continuous on a source whose get-entries serves more than its announced STH covers (clause RangeWithinSTH, named clauses ContIgnoresRange and RangeIsTheJob); MigrillianNoClamp.cfg must be refuted by TLC (Bounded); trace validation names overruns through the defect step OverrunRange."),
+}
+for _pid, _e in EXTRA4.items():
+    EXTRA3.setdefault(_pid, {})
+    for _k, _v in _e.items():
+        EXTRA3[_pid][_k] = EXTRA3[_pid].get(_k, "") + _v
 for _pid, _e in EXTRA3.items():
     EXTRA2.setdefault(_pid, {})
     for _k, _v in _e.items():
